@@ -265,11 +265,15 @@ func c18Gen(r *RNG) c18Case {
 }
 
 func runC18(c *Ctx) {
-	c.Rep.Rule = "random multi-session histories (limits 1..5,1000; initial file missing/empty/terminated/unterminated/over-long/with blank lines); non-trivial = at least one non-empty submission and one previous/next step; distinct by JSON of the case"
+	c.Rep.Rule = "random multi-session histories (limits 1..5,1000; initial file missing/empty/terminated/unterminated/over-long/with blank lines); non-trivial = at least one non-empty submission and one previous/next step; distinct by JSON of the case; plus program runs (kind proc): sequences of 1..5 runs of the fzf binary on a pty over two history files, --history/--history-size/--no-history in both orders and forms, overridden, spread over options file / FZF_DEFAULT_OPTS / command line, query from --query, typed keys or POSTed actions, previous/next, endings accept (match / no match) print-query accept-or-print-query become abort-keys SIGTERM SIGINT, default limit 1000 on files of 997..1003 entries; non-trivial = at least one recorded non-empty submission"
 	dir := c.Work
 	if c.Replay != "" {
 		var cs c18Case
 		b, err := os.ReadFile(c.Replay)
+		if pc, ok := c18ProcParse(b); ok && err == nil {
+			c18ProcCheck(c, pc)
+			return
+		}
 		if err == nil {
 			var w struct{ Input c18Case }
 			if json.Unmarshal(b, &w) == nil && len(w.Input.Sessions) > 0 {
@@ -284,6 +288,11 @@ func runC18(c *Ctx) {
 	for _, f := range corpusFiles(c) {
 		var cs c18Case
 		b, _ := os.ReadFile(f)
+		if pc, ok := c18ProcParse(b); ok {
+			c18ProcCheck(c, pc)
+			c.Rep.Count("corpus")
+			continue
+		}
 		if json.Unmarshal(b, &cs) == nil {
 			c18Check(c, dir, cs)
 			c.Rep.Count("corpus")
@@ -293,6 +302,8 @@ func runC18(c *Ctx) {
 	for i := 0; i < n; i++ {
 		c18Check(c, dir, c18Gen(c.Rng))
 	}
+	// the history file as the real program maintains it across runs (c18proc.go)
+	c18ProcRun(c)
 }
 
 func init() { runners["C18"] = runC18 }
